@@ -431,8 +431,23 @@ Fixpoint append_calls (calls : list chain) (new : list chain) : list chain :=
     else append_calls (calls ++ [ch]) new'
   end.
 
-Definition add_calls (a : assocs) (calls : list chain) (line : str) : list chain :=
-  append_calls calls (raw_calls a line).
+(* chains that end in an entry of INTRINSICS (intrinsics, statement keywords) are candidates: kept apart,
+   each once; correlate records those that turn out to be procedures the unit sees *)
+Fixpoint append_named (named : list chain) (new : list chain) : list chain :=
+  match new with
+  | [] => named
+  | ch :: new' =>
+    if str_in (last_of ch) INTRINSICS && negb (existsb (list_eqb str_eqb ch) named)
+    then append_named (named ++ [ch]) new'
+    else append_named named new'
+  end.
+
+(* the method updates two lists from the same chains; [app] is the update of the one followed *)
+Definition appender := list chain -> list chain -> list chain.
+Definition add_gen (app : appender) (a : assocs) (calls : list chain) (line : str) : list chain :=
+  app calls (raw_calls a line).
+Definition add_calls : assocs -> list chain -> str -> list chain := add_gen append_calls.
+Definition add_named : assocs -> list chain -> str -> list chain := add_gen append_named.
 
 (* ------------------------------------------------------------------ the cascade *)
 Definition is_digit_b (c : ascii) : bool := is_digit c.
@@ -543,14 +558,14 @@ Definition call_gate (line : str) : bool :=
 (* one (unmasked) executable statement of a procedure or program body, none of the earlier
    branches of the cascade (declarations, contains, end of the unit, ...) applying.
    None = the implementation raises (malformed ASSOCIATE list, END ASSOCIATE without ASSOCIATE) *)
-Definition line_step (st : assocs * list chain) (line : str) : option (assocs * list chain) :=
+Definition line_step_gen (app : appender) (st : assocs * list chain) (line : str) : option (assocs * list chain) :=
   let (a, calls) := st in
   if format_re line then Some st
   else if end_associate_re line then
     match rev a with [] => None | _ :: ra => Some (rev ra, calls) end
   else match associate_re line with
   | Some body =>
-    let calls' := add_calls a calls line in
+    let calls' := add_gen app a calls line in
     match strip_paren body 0 with
     | first :: _ =>
       match add_batch a (paren_split comma first) with
@@ -561,10 +576,12 @@ Definition line_step (st : assocs * list chain) (line : str) : option (assocs * 
     end
   | None =>
     match goto_rewrite false [] line with
-    | Some line' => if call_gate line' then Some (a, add_calls a calls line') else Some st
-    | None => if call_gate line then Some (a, add_calls a calls line) else Some st
+    | Some line' => if call_gate line' then Some (a, add_gen app a calls line') else Some st
+    | None => if call_gate line then Some (a, add_gen app a calls line) else Some st
     end
   end.
+(* unit.calls (chains not ending in an entry of INTRINSICS) *)
+Definition line_step : assocs * list chain -> str -> option (assocs * list chain) := line_step_gen append_calls.
 
 Definition stmt_step (st : assocs * list chain) (stmt : str) : option (assocs * list chain) :=
   line_step st (mask_quotes stmt).
@@ -579,6 +596,15 @@ Fixpoint run_stmts (st : assocs * list chain) (stmts : list str) : option (assoc
 Definition unit_raw_calls (stmts : list str) : option (list chain) :=
   match run_stmts ([], []) stmts with Some (_, c) => Some c | None => None end.
 
+(* the candidates (chains ending in an entry of INTRINSICS) of the unit, the same cascade *)
+Fixpoint run_named (st : assocs * list chain) (stmts : list str) : option (assocs * list chain) :=
+  match stmts with
+  | [] => Some st
+  | x :: rest => match line_step_gen append_named st (mask_quotes x) with Some st' => run_named st' rest | None => None end
+  end.
+Definition unit_named_calls (stmts : list str) : option (list chain) :=
+  match run_named ([], []) stmts with Some (_, c) => Some c | None => None end.
+
 (* ------------------------------------------------------------------ resolution (correlate) *)
 (* what a label of a call chain can denote *)
 Inductive entity :=
@@ -587,7 +613,9 @@ Inductive entity :=
                                   looked up in the function's table, or its host's as long as the
                                   function has none) *)
   | EProc (id : str)           (* subroutine, interface, bound procedure, ... : recorded, no context *)
-  | EVar (ty : str) (ptypes : bool)   (* variable (type string after strip_type; parent has all_types) *)
+  | EVar (ty : str) (ptypes : bool) (scalar : bool)
+                               (* variable (type string after strip_type; parent has all_types; a scalar of
+                                  numeric or logical type that is no dummy argument: cannot be indexed) *)
   | EType (name : str).        (* derived type *)
 
 (* the labels dictionary of get_label_item, as the sequence of updates (later wins) *)
@@ -616,8 +644,8 @@ Fixpoint find_chain (tb : symtab) (ctx : labels) (ch : chain) : option entity :=
     | None => None
     | Some (EFunc _ t) => match type_ctx tb t with Some c => find_chain tb c rest | None => None end
     | Some (EType t) => match type_ctx tb t with Some c => find_chain tb c rest | None => None end
-    | Some (EVar t true) => match type_ctx tb t with Some c => find_chain tb c rest | None => None end
-    | Some (EVar _ false) => None
+    | Some (EVar t true _) => match type_ctx tb t with Some c => find_chain tb c rest | None => None end
+    | Some (EVar _ false _) => None
     | Some (EProc _) => None
     end
   end.
@@ -632,10 +660,27 @@ Definition unresolved_name (tb : symtab) (ch : chain) : str :=
   | _ => last_of ch
   end.
 
+(* all_procs.get(name): the procedure entry of the unit's own tables, whatever shadows it *)
+Fixpoint labels_get_proc (k : str) (l : labels) (found : option entity) : option entity :=
+  match l with
+  | [] => found
+  | (k', v) :: l' =>
+    labels_get_proc k l' (if str_eqb k k' then match v with EFunc _ _ | EProc _ => Some v | _ => found end else found)
+  end.
+
+(* the item a chain refers to.  A plain scalar followed by "(" is a function reference: the
+   declaration only gives the result type of an external function, or names the result variable of
+   the enclosing function *)
+Definition find_call (tb : symtab) (ch : chain) : option entity :=
+  match find_chain tb (st_scope tb) ch, ch with
+  | Some (EVar _ _ true), [x] => labels_get_proc x (st_scope tb) None
+  | found, _ => found
+  end.
+
 Definition resolve_one (tb : symtab) (ch : chain) : option str :=
-  match find_chain tb (st_scope tb) ch with
+  match find_call tb ch with
   | None => Some (unresolved_name tb ch)
-  | Some (EVar _ _) => None
+  | Some (EVar _ _ _) => None
   | Some (EType _) => None
   | Some (EFunc id _) => Some id
   | Some (EProc id) => Some id
@@ -653,9 +698,21 @@ Fixpoint resolve_loop (tb : symtab) (calls : list chain) (acc : list str) : list
   end.
 Definition resolve_calls (tb : symtab) (calls : list chain) : list str := resolve_loop tb calls [].
 
+(* the candidates: only what _find_chain_item resolves to a procedure is a call *)
+Fixpoint resolve_named (tb : symtab) (named : list chain) (acc : list str) : list str :=
+  match named with
+  | [] => acc
+  | ch :: rest =>
+    match find_chain tb (st_scope tb) ch with
+    | Some (EFunc id _) | Some (EProc id) =>
+      if str_in id acc then resolve_named tb rest acc else resolve_named tb rest (acc ++ [id])
+    | _ => resolve_named tb rest acc
+    end
+  end.
+
 (* unit.calls after correlate: identities of resolved procedures, names of the others *)
 Definition recorded (tb : symtab) (stmts : list str) : option (list str) :=
-  match unit_raw_calls stmts with
-  | Some c => Some (resolve_calls tb c)
-  | None => None
+  match unit_raw_calls stmts, unit_named_calls stmts with
+  | Some c, Some n => Some (resolve_named tb n (resolve_calls tb c))
+  | _, _ => None
   end.
